@@ -11,6 +11,7 @@ import CBV.Lemmas.C15Max
 import CBV.Lemmas.C15Graph
 import CBV.Lemmas.C15Lattice
 import CBV.Lemmas.C15Hex
+import CBV.Lemmas.C15Rate
 import Mathlib.Tactic.Ring
 import Mathlib.Tactic.Linarith
 import Mathlib.Tactic.FieldSimp
@@ -141,6 +142,53 @@ example : LatticeLike (structQuads 3 3) [] (quadCoord 3) ∧ inner (structQuads 
 
 example : LatticeLike (structQuads 4 2) [6] (quadCoord 4) ∧ inner (structQuads 4 2) = [6, 7, 8] :=
   ⟨latticeLike_of_B _ _ _ (by decide +kernel), by decide +kernel⟩
+
+/-- **The lattice-like condition is exactly what is needed** (any grid, structured or not, in which the free inner
+    junctions have neighbours): the labelling `coord` has centrally symmetric neighbour stencils at every free inner
+    junction **iff** every affine image of it is left unchanged by smoothing.  So for an unstructured regular grid the
+    hypothesis of `T_C15_lattice_partial` cannot be weakened: it is equivalent to the conclusion. -/
+theorem T_C15_lattice_iff (g : Grid) (fixed : List Nat) (coord : Nat → V3) (hdef : defined g fixed = true) :
+    LatticeLike g fixed coord ↔
+      ∀ (o u v w : V3) (p : List V3), p.length = g.n →
+        (∀ n, n < g.n → pget p n = affineImg o u v w (coord n)) → smooth g fixed 1 p = p := by
+  constructor
+  · intro hl o u v w p _ hp
+    exact T_C15_lattice_partial g fixed coord o u v w p hl hp 1
+  · intro h j hj hf
+    obtain ⟨hlt, hbd⟩ := (mem_inner g j).mp hj
+    have hne : junctionNbrs g j ≠ [] := by
+      unfold defined at hdef
+      have := List.all_eq_true.mp hdef j hj
+      simpa [hf] using this
+    refine ⟨hne, ?_⟩
+    -- the identity image of the labelling
+    have hp : ∀ n, n < g.n → pget ((List.range g.n).map coord) n = affineImg V3.zero ⟨1, 0, 0⟩ ⟨0, 1, 0⟩ ⟨0, 0, 1⟩ (coord n) := by
+      intro n hn
+      unfold pget affineImg
+      simp only [List.getD_eq_getElem?_getD, List.getElem?_map, List.getElem?_range hn, Option.map_some, Option.getD_some]
+      apply V3.ext' <;> simp [V3.zero]
+    have hfix := h V3.zero ⟨1, 0, 0⟩ ⟨0, 1, 0⟩ ⟨0, 0, 1⟩ ((List.range g.n).map coord) (by simp) hp
+    have hid : ∀ n, n < g.n → pget ((List.range g.n).map coord) n = coord n := by
+      intro n hn
+      unfold pget
+      simp [List.getD_eq_getElem?_getD, List.getElem?_map, List.getElem?_range hn]
+    have hj' := (T_C15_fixpoint g fixed _).mp hfix j hlt hbd hf (by simpa using hlt)
+    have hmap : (junctionNbrs g j).map (pget ((List.range g.n).map coord)) = (junctionNbrs g j).map coord :=
+      List.map_congr_left (fun t ht => hid t ((mem_junctionNbrs g j t).mp ht).1)
+    rw [hid j hlt, hmap] at hj'
+    have hlen : ((junctionNbrs g j).length : Rat) ≠ 0 := by
+      have : (junctionNbrs g j).length ≠ 0 := fun h0 => hne (List.length_eq_zero_iff.mp h0)
+      exact_mod_cast this
+    unfold avg at hj'
+    rw [List.length_map] at hj'
+    rw [hj']
+    apply V3.ext' <;> simp <;> field_simp
+
+/-- non-vacuity of `T_C15_lattice_iff`: the hypothesis holds for the 3×3 map; and the labelling that puts point 5 off its
+    lattice place is *not* lattice-like (so, by the equivalence, some affine image of it is moved by smoothing) -/
+example : defined (structQuads 3 3) [] = true ∧
+    latticeLikeB (structQuads 3 3) [] (fun q => if q = 5 then ⟨5/4, 1, 0⟩ else quadCoord 3 q) = false := by
+  decide +kernel
 
 /-- the regular lattice: point `q` of the structured `nx × ny` map at `o + (q mod (nx+1))·u + (q div (nx+1))·v` -/
 def latticePts (nx ny : Nat) (o u v : V3) : List V3 :=
@@ -558,17 +606,12 @@ example :
       linfDist p q = 1/4 ∧ linfDist (smooth g [] 1 p) q = 0 := by decide +kernel
 
 /-
-Full statement of a convergence *rate* (not proved): on an anchored graph whose free junctions are at most `d` links from
-the frame and have at most `Δ` neighbours, `d` sweeps shrink the max-norm distance to the fixed point by the factor
-`1 − Δ^(−d)`; hence the positions converge geometrically.  Proved part: the first level of that argument — the update of
-a free junction that has a neighbour on the frame (same value in `p` and in the fixed point `q`) leaves it with an
-error of at most `(1 − 1/degree)·M` when all errors are at most `M`.  Missing: the propagation through the levels
-(a junction at level `k+1` has a neighbour at level `k` whose bound `(1 − Δ^(−k))·M` persists under later updates), an
-induction over sweeps inside an induction over the fold of one sweep, with levels defined from `Reach`.
+The first level of the rate argument (the full statement is `T_C15_rate` / `T_C15_rate_geometric` below): the update of a
+free junction that has a neighbour on the frame leaves it with an error of at most `(1 − 1/degree)·M`.
 -/
 /-- first level of the rate: next to the frame one update contracts the error by `1 − 1/degree` (any coordinate or
     linear functional `c` of the position, any graph, in-place order) -/
-theorem T_C15_rate_partial (g : Grid) (fixed : List Nat) (q p : List V3) (j t : Nat) {c : V3 → Rat} (hc : IsLin c)
+theorem T_C15_rate_first_level (g : Grid) (fixed : List Nat) (q p : List V3) (j t : Nat) {c : V3 → Rat} (hc : IsLin c)
     (hq : smooth g fixed 1 q = q) (hj : j ∈ inner g) (hf : j ∉ fixed) (hl : j < p.length) (hlq : j < q.length)
     (ht : t ∈ junctionNbrs g j) (ht0 : pget p t = pget q t)
     (M : Rat) (hM : ∀ i, |c (pget p i) - c (pget q i)| ≤ M) :
@@ -592,6 +635,155 @@ example :
     smooth g [] 1 q = q ∧ 5 ∈ inner g ∧ 1 ∈ junctionNbrs g 5 ∧ pget p 1 = pget q 1 ∧
       (pget (step (junctionNbrs g) [] p 5) 5).x - (pget q 5).x = 1/8 ∧ (1 - 1 / (4 : Rat)) * (1/4) = 3/16 := by
   decide +kernel
+
+/-! ### the rate: geometric convergence with an explicit factor -/
+
+/-- a level function for the free junctions: every free inner junction has a neighbour of smaller level (levels count
+    the links to the frame; boundary and fixed junctions may have level 0), at most `Δ` neighbours and level at most `d` -/
+def Levelled (g : Grid) (fixed : List Nat) (lvl : Nat → Nat) (Δ d : Nat) : Prop :=
+  1 ≤ Δ ∧ ∀ j ∈ inner g, j ∉ fixed →
+    (∃ t ∈ junctionNbrs g j, lvl t < lvl j) ∧ (junctionNbrs g j).length ≤ Δ ∧ lvl j ≤ d
+
+theorem iter_add (f : List V3 → List V3) (a b : Nat) (p : List V3) : iter f (a + b) p = iter f b (iter f a p) := by
+  induction a generalizing p with
+  | zero => simp [iter]
+  | succ a ih => rw [Nat.succ_add]; simp only [iter]; exact ih (f p)
+
+/-- **Rate of convergence**, every graph with a level function (in particular every anchored grid: take the number of
+    links to the frame), every fixed set, in-place order as the code performs it: if `q` is the fixed point and `p`
+    carries the same boundary and fixed positions, then `d` iterations — `d` the depth of the graph — shrink the max-norm
+    distance to `q` to at most `(1 − Δ^(−d))` times what it was. -/
+theorem T_C15_rate (g : Grid) (fixed : List Nat) (lvl : Nat → Nat) (Δ d : Nat) (hL : Levelled g fixed lvl Δ d)
+    (q p : List V3) (hq : smooth g fixed 1 q = q) (hp : p.length = g.n) (hqn : q.length = g.n)
+    (hb : ∀ i, isBoundary g i = true ∨ i ∈ fixed → pget p i = pget q i) :
+    linfDist (smooth g fixed d p) q ≤ (1 - (1 / (Δ : Rat)) ^ d) * linfDist p q := by
+  obtain ⟨hΔ, hlev⟩ := hL
+  have hD : (1 : Rat) ≤ (Δ : Rat) := by exact_mod_cast hΔ
+  have hM : 0 ≤ linfDist p q := linfDist_nonneg p q
+  have hqf : ∀ j ∈ inner g, j ∉ fixed → pget q j = avg ((junctionNbrs g j).map (pget q)) := by
+    unfold smooth at hq; simp only [iter] at hq
+    intro j hj hf
+    exact (sweep_eq_self_iff _ (inner_nodup g) _ _ _).mp hq j hj hf (by rw [hqn]; exact ((mem_inner g j).mp hj).1)
+  have hnf : ∀ i, ¬ (i ∈ inner g ∧ i ∉ fixed) → pget p i = pget q i := by
+    intro i hi
+    by_cases hlt : i < g.n
+    · apply hb
+      by_cases hfx : i ∈ fixed
+      · exact Or.inr hfx
+      · left; by_contra hbd
+        exact hi ⟨(mem_inner g i).mpr ⟨hlt, by simpa using hbd⟩, hfx⟩
+    · rw [pget_of_le p i (by omega), pget_of_le q i (by omega)]
+  have hl : ∀ j ∈ inner g, j < p.length := fun j hj => by rw [hp]; exact ((mem_inner g j).mp hj).1
+  have habs : ∀ {c : V3 → Rat}, IsLin c → (∀ a b, |c a - c b| ≤ coordDist a b) →
+      ∀ i, |c (pget p i) - c (pget q i)| ≤ linfDist p q := by
+    intro c _ hcd i
+    by_cases hi : i < p.length
+    · exact (hcd _ _).trans (coordDist_le_linfDist p q i hi)
+    · rw [pget_of_le p i (by omega), pget_of_le q i (by omega)]; simpa using hM
+  have key : ∀ {c : V3 → Rat}, IsLin c → (∀ a b, |c a - c b| ≤ coordDist a b) →
+      ∀ i, |c (pget (smooth g fixed d p) i) - c (pget q i)| ≤ (1 - (1 / (Δ : Rat)) ^ d) * linfDist p q := by
+    intro c hc hcd i
+    have hA := habs hc hcd
+    unfold smooth
+    rw [abs_le]
+    have up := iter_err_le_rate hc (inner g) (junctionNbrs g) fixed q lvl (Δ : Rat) (linfDist p q) hD hM hqf
+      (fun j hj hf => (hlev j hj hf).1) (fun j hj hf => by exact_mod_cast (hlev j hj hf).2.1)
+      d (fun j hj hf => (hlev j hj hf).2.2) p hl (fun t => (abs_le.mp (hA t)).2)
+      (fun t ht => by rw [hnf t ht]; ring) i
+    have lo := iter_err_le_rate hc.neg (inner g) (junctionNbrs g) fixed q lvl (Δ : Rat) (linfDist p q) hD hM hqf
+      (fun j hj hf => (hlev j hj hf).1) (fun j hj hf => by exact_mod_cast (hlev j hj hf).2.1)
+      d (fun j hj hf => (hlev j hj hf).2.2) p hl (fun t => by have := (abs_le.mp (hA t)).1; linarith)
+      (fun t ht => by rw [hnf t ht]; ring) i
+    constructor <;> linarith
+  have hx : ∀ a b : V3, |a.x - b.x| ≤ coordDist a b := fun a b => ((coordDist_le_iff a b _).mp le_rfl).1
+  have hy : ∀ a b : V3, |a.y - b.y| ≤ coordDist a b := fun a b => ((coordDist_le_iff a b _).mp le_rfl).2.1
+  have hz : ∀ a b : V3, |a.z - b.z| ≤ coordDist a b := fun a b => ((coordDist_le_iff a b _).mp le_rfl).2.2
+  rw [linfDist_le_iff]
+  refine ⟨mul_nonneg ?_ hM, fun i _ => ?_⟩
+  · rw [← bnd_closed (Δ : Rat) (by linarith) d]; exact (bnd_range (Δ : Rat) hD d).1
+  · rw [coordDist_le_iff]
+    exact ⟨key isLin_x hx i, key isLin_y hy i, key isLin_z hz i⟩
+
+/-- … hence **geometric convergence**: after `k·d` iterations the distance is at most `(1 − Δ^(−d))^k` times the initial
+    one, and the factor is strictly below 1 — "after enough iterations each free point equals its neighbours' average"
+    with an explicit bound on how many are enough. -/
+theorem T_C15_rate_geometric (g : Grid) (fixed : List Nat) (lvl : Nat → Nat) (Δ d : Nat) (hL : Levelled g fixed lvl Δ d)
+    (q p : List V3) (hq : smooth g fixed 1 q = q) (hp : p.length = g.n) (hqn : q.length = g.n)
+    (hb : ∀ i, isBoundary g i = true ∨ i ∈ fixed → pget p i = pget q i) (k : Nat) :
+    linfDist (smooth g fixed (k * d) p) q ≤ (1 - (1 / (Δ : Rat)) ^ d) ^ k * linfDist p q ∧
+    0 ≤ 1 - (1 / (Δ : Rat)) ^ d ∧ 1 - (1 / (Δ : Rat)) ^ d < 1 := by
+  have hD : (1 : Rat) ≤ (Δ : Rat) := by exact_mod_cast hL.1
+  have hr0 : 0 ≤ 1 - (1 / (Δ : Rat)) ^ d := by
+    rw [← bnd_closed (Δ : Rat) (by linarith) d]; exact (bnd_range (Δ : Rat) hD d).1
+  have hr1 : 1 - (1 / (Δ : Rat)) ^ d < 1 := by
+    have : 0 < (1 / (Δ : Rat)) ^ d := pow_pos (by apply div_pos <;> linarith) d
+    linarith
+  refine ⟨?_, hr0, hr1⟩
+  induction k with
+  | zero => simp [smooth, iter]
+  | succ k ih =>
+    have hsplit : smooth g fixed ((k + 1) * d) p = smooth g fixed d (smooth g fixed (k * d) p) := by
+      unfold smooth; rw [Nat.succ_mul, iter_add]
+    have hp' : (smooth g fixed (k * d) p).length = g.n := by
+      unfold smooth; rw [iter_length _ (fun r => sweep_length _ _ _ r)]; exact hp
+    have hb' : ∀ i, isBoundary g i = true ∨ i ∈ fixed → pget (smooth g fixed (k * d) p) i = pget q i := by
+      intro i hi
+      rw [(T_C15_frame g fixed (k * d) p i (by rcases hi with h | h; exact Or.inl h; exact Or.inr (Or.inl h))).1]
+      exact hb i hi
+    rw [hsplit, pow_succ]
+    calc linfDist (smooth g fixed d (smooth g fixed (k * d) p)) q
+        ≤ (1 - (1 / (Δ : Rat)) ^ d) * linfDist (smooth g fixed (k * d) p) q :=
+          T_C15_rate g fixed lvl Δ d hL q _ hq hp' hqn hb'
+      _ ≤ (1 - (1 / (Δ : Rat)) ^ d) * ((1 - (1 / (Δ : Rat)) ^ d) ^ k * linfDist p q) :=
+          mul_le_mul_of_nonneg_left ih hr0
+      _ = (1 - (1 / (Δ : Rat)) ^ d) ^ k * (1 - (1 / (Δ : Rat)) ^ d) * linfDist p q := by ring
+
+/-- non-vacuity: the 3×3 map (all four interior points next to the rim: depth 1, degree 4 — factor 3/4 per sweep) and
+    the 4×4 map (centre point 12 at level 2: factor 15/16 per two sweeps) are levelled -/
+example : Levelled (structQuads 3 3) [] (fun i => if i ∈ [5, 6, 9, 10] then 1 else 0) 4 1 ∧
+    Levelled (structQuads 4 4) [] (fun i => if i = 12 then 2 else if i ∈ [6, 7, 8, 11, 13, 16, 17, 18] then 1 else 0) 4 2 ∧
+    inner (structQuads 4 4) = [6, 7, 8, 11, 12, 13, 16, 17, 18] := by
+  unfold Levelled; decide +kernel
+
+/-- … and the bound is met on a concrete run: 3×3 map, three interior points displaced by 1/4, distance 1/4 before and
+    1/8 ≤ (3/4)·(1/4) after one sweep -/
+example :
+    let g := structQuads 3 3
+    let q := latticePts 3 3 ⟨0, 0, 0⟩ ⟨1, 0, 0⟩ ⟨0, 1, 0⟩
+    let p := ((q.set 5 ⟨5/4, 1, 0⟩).set 6 ⟨9/4, 1, 0⟩).set 9 ⟨5/4, 2, 0⟩
+    linfDist p q = 1/4 ∧ linfDist (smooth g [] 1 p) q ≤ (1 - (1 / (4 : Rat)) ^ 1) * (1/4) := by decide +kernel
+
+/-- every anchored grid has a level function (the number of links to the frame), a degree bound and a depth -/
+theorem T_C15_anchored_levelled (g : Grid) (fixed : List Nat)
+    (hr : ∀ j ∈ inner g, j ∉ fixed → Reach (junctionNbrs g) (fun j => j ∈ inner g ∧ j ∉ fixed) j) :
+    ∃ lvl Δ d, Levelled g fixed lvl Δ d := by
+  obtain ⟨B1, h1⟩ := exists_bound (inner g) (fun j => (junctionNbrs g j).length)
+  obtain ⟨B2, h2⟩ := exists_bound (inner g) (levelOf (junctionNbrs g) (fun j => j ∈ inner g ∧ j ∉ fixed))
+  refine ⟨levelOf (junctionNbrs g) (fun j => j ∈ inner g ∧ j ∉ fixed), B1 + 1, B2, by omega, fun j hj hf => ⟨?_, ?_, h2 j hj⟩⟩
+  · exact levelOf_nbr _ _ j ⟨hj, hf⟩ (reachN_of_reach (hr j hj hf))
+  · have := h1 j hj; omega
+
+/-- **Convergence of smoothing on every anchored grid, with an explicit geometric bound.**  If every free inner junction
+    is linked to the frame (decided by the model per grid: `anchoredB`), there are a number of iterations `d` and a factor
+    `r < 1` — `r = 1 − Δ^(−d)` for the depth `d` and the largest degree `Δ` of the graph — such that, for every fixed point
+    `q` and every start `p` with the same boundary and fixed positions, `k·d` iterations bring the positions within
+    `r^k` times the initial max-norm distance of `q`, for every `k`.  So "after enough iterations each free point equals
+    its neighbours' average" holds to any accuracy `ε` as soon as `r^k · linfDist p q ≤ ε`. -/
+theorem T_C15_converges (g : Grid) (fixed : List Nat) (ha : anchoredB g fixed = true) :
+    ∃ (d : Nat) (r : Rat), 0 ≤ r ∧ r < 1 ∧
+      ∀ q p : List V3, smooth g fixed 1 q = q → p.length = g.n → q.length = g.n →
+        (∀ i, isBoundary g i = true ∨ i ∈ fixed → pget p i = pget q i) →
+        ∀ k, linfDist (smooth g fixed (k * d) p) q ≤ r ^ k * linfDist p q := by
+  obtain ⟨lvl, Δ, d, hL⟩ := T_C15_anchored_levelled g fixed (reach_of_anchoredB g fixed ha)
+  refine ⟨d, 1 - (1 / (Δ : Rat)) ^ d, ?_, ?_, fun q p hq hp hqn hb k => (T_C15_rate_geometric g fixed lvl Δ d hL q p hq hp hqn hb k).1⟩
+  · have hD : (1 : Rat) ≤ (Δ : Rat) := by exact_mod_cast hL.1
+    rw [← bnd_closed (Δ : Rat) (by linarith) d]; exact (bnd_range (Δ : Rat) hD d).1
+  · have hD : (1 : Rat) ≤ (Δ : Rat) := by exact_mod_cast hL.1
+    have : 0 < (1 / (Δ : Rat)) ^ d := pow_pos (by apply div_pos <;> linarith) d
+    linarith
+
+/-- non-vacuity: the structured 4×4 map and the 2×2×2 hexahedral assembly are anchored -/
+example : anchoredB (structQuads 4 4) [] = true ∧ anchoredB (structHexes 2 2 2) [] = true := by decide +kernel
 
 /-- **Uniqueness of the fixed point (discrete maximum principle)**, every graph: two position lists that are both
     unchanged by a sweep and agree on all boundary and fixed junctions are equal, as soon as every free inner
@@ -710,8 +902,8 @@ example :
 
 /-- The statement skeletons of every method on the execution path of `SmootherBase.smooth`, regenerated from the
     *current* source with `ast` on every run (`cbv/tables/c15.py`: one string per statement, `depth:text`, locals
-    renamed a0, a1, …), are the ones the model was transcribed from: the two nested loops of `smooth` with the
-    `continue` on fixed junctions, the neighbour positions read through `Junction.point` (a view of the shared
+    renamed a0, a1, …; a guard-`continue` and its positive-block form are one shape), are the ones the model was
+    transcribed from: the two nested loops of `smooth` skipping fixed junctions, the neighbour positions read through `Junction.point` (a view of the shared
     array: **in place**, Gauss–Seidel), the write to `self.grid.points[index]`, `backport` after the loops; the
     inner junctions in index order; `fix_indexes` / `fix_points` adding to the set (`< TOL`); the guards and the order
     of `get_common_side`, `add_neighbour` (cell and junction), `boundary`, `is_boundary`; the order of the binding
@@ -721,10 +913,9 @@ theorem T_C15_source_skeleton :
       ["def smooth(self, a0)",
        "0:for _ in range(a0)",
        "1:for a1 in self.inner",
-       "2:if a1.index in self.fixed",
-       "3:continue",
-       "2:a2 = [a3.point for a3 in a1.neighbours]",
-       "2:self.grid.points[a1.index] = np.average(a2, axis=0)",
+       "2:if a1.index not in self.fixed",
+       "3:a2 = [a3.point for a3 in a1.neighbours]",
+       "3:self.grid.points[a1.index] = np.average(a2, axis=0)",
        "0:self.backport()"] ∧
     CBV.Gen.c15SrcSmootherInit =
       ["def __init__(self, a0)",
